@@ -1461,7 +1461,7 @@ class BaseLoss(object):
         if self._targetState is None:
             index_list = range(self._num_state)
         else:
-            index_list = [self._ode.get_state_index(i) for i in self._targetState]
+            index_list = self._ode.get_state_index(self._targetState)
 
         return index_list
 
